@@ -26,7 +26,7 @@ SPEC = {
     ],
     "tiers": {
         "quick": {"shards": 8, "budget_s": 30},
-        "thorough": {"shards": 16, "budget_s": 900},
+        "thorough": {"shards": 16, "budget_s": 600},
     },
     "floors": {
         "quick": {
@@ -44,12 +44,12 @@ SPEC = {
             "py_class_family_compactsize": 8, "py_class_family_checksum_variant": 8, "py_class_family_wrong_prefix": 8,
             "mutants_rejected": 50_000, "mutants_accepted": 3_000, "fuzz_strings": 30_000, "long_strings": 100,
             "accepted_strings_reencoded": 10_000,
-            "f4_lengths_checked": 5_000, "f4_min_length_checked": 1, "f4_max_length_checked": 1,
-            "f4_invalid_lengths_rejected": 300, "max_f4_length": 4194368,
-            "typed_roundtrips_unified": 800, "typed_roundtrips_sapling": 300, "typed_roundtrips_tex": 300,
-            "typed_unknown_items_preserved": 500,
-            "py_checked_encoder_strings": 8_000, "py_checked_container_strings": 4_000,
-            "py_checked_parser_verdicts": 20_000, "py_checked_f4jumble_outputs": 1_000,
+            "f4_lengths_checked": 3_000, "f4_min_length_checked": 1, "f4_max_length_checked": 1,
+            "f4_invalid_lengths_rejected": 100, "max_f4_length": 4194368,
+            "typed_roundtrips_unified": 400, "typed_roundtrips_sapling": 200, "typed_roundtrips_tex": 200,
+            "typed_unknown_items_preserved": 400,
+            "py_checked_encoder_strings": 8_000, "py_checked_container_strings": 3_000,
+            "py_checked_parser_verdicts": 20_000, "py_checked_f4jumble_outputs": 800,
             "py_checked_f4jumble_outputs_1M_or_longer": 8, "pyref_selftest_vectors": 100,
         },
         "thorough": {
